@@ -22,3 +22,5 @@
 ; (1 + strcount(prefix, "\n") is the definition of "line number" used by the contracts); only its range (0 .. len(s)+1) is stated.
 (declare-fun strcount (String String) Int)
 (assert (forall ((s String) (t String)) (! (and (>= (strcount s t) 0) (<= (strcount s t) (+ (str.len s) 1))) :pattern ((strcount s t)))))
+; runecount(s) = utf8.RuneCountInString(s): the number of characters of a string (uninterpreted)
+(declare-fun runecount (String) Int)
